@@ -63,7 +63,7 @@ def main():
             vio = [l for l in p.stdout.splitlines() if l.startswith("VIOLATION")]
             cls = [l[:200] for l in p.stdout.splitlines() if l.startswith("violation class=")]
             det = p.returncode == 1 and bool(vio)
-            results.append({"id": mu["id"], "property": mu["property"], "note": mu["note"], "suite_passes": ok_suite, "detected": det,
+            results.append({"id": mu["id"], "property": mu["property"], "note": mu["note"], "suite_passes": ok_suite, "detected": det, "expect": mu.get("expect", "detect"),
                             "exit": p.returncode, "violation": cls[:2], "wall_s": round(time.time() - t0, 1)})
             print(f"check {mu['id']} ({mu['property']}): {'DETECTED' if det else 'MISSED exit=%d' % p.returncode} {cls[:1]} {time.time() - t0:.0f}s", flush=True)
             if p.returncode == 2:
@@ -77,7 +77,9 @@ def main():
     for r in results:
         prev[r["id"]] = r
     json.dump({"results": [prev[k] for k in sorted(prev)]}, open(out, "w"), indent=1)
-    missed = [r["id"] for r in results if r["detected"] is False]
+    missed = [r["id"] for r in results if r["detected"] is False and r.get("expect", "detect") == "detect"]
+    alarms = [r["id"] for r in results if r["detected"] is True and r.get("expect") == "miss"]
+    print("alarms on controls:", alarms)
     print("missed:", missed)
     return 1 if missed else 0
 
